@@ -105,6 +105,14 @@ def canon_out(o, n_items, return_ctx):
     return body
 
 
+def safe_canon(o, n_items, return_ctx):
+    """canon_out of something the code under test returned: a sample of the wrong shape is an outcome, not a harness error"""
+    try:
+        return canon_out(o, n_items, return_ctx)
+    except Exception:
+        return {"malformed": repr(o)[:200]}
+
+
 def to_py_index(f):
     if isinstance(f, list):
         return [to_py_index(e) for e in f]
@@ -137,17 +145,21 @@ def run_real(case):
     for f in case["forms"]:
         try:
             o = mw[to_py_index(f)]
-            outs.append(canon_out(o, n_items, case["return_ctx"]))
+            outs.append(safe_canon(o, n_items, case["return_ctx"]))
         except KeyError:
             outs.append("KeyError")
         except IndexError:
             outs.append("IndexError")
+        except Exception as e:  # anything else the code under test raises is an outcome too (never a harness exception)
+            outs.append(f"Error:{type(e).__name__}")
     # iteration protocol after the forms (the instrumentation counter keeps running, as in the model's `iterAll`)
     try:
-        it = [canon_out(o, n_items, case["return_ctx"]) for o in mw]
+        it = [safe_canon(o, n_items, case["return_ctx"]) for o in mw]
     except KeyError:
         it = "KeyError"
-    out = {"ctor": "ok", "plan": plan, "propagate": bool(mw.propagate_ctx), "outs": outs, "len": len(mw), "iter": it, "_mw": mw, "_counter": counter}
+    except Exception as e:
+        it = f"Error:{type(e).__name__}"
+    out = {"ctor": "ok", "plan": plan, "propagate": bool(mw.propagate_ctx), "outs": outs, "len": len(mw), "iter": it, "_mw": mw, "_counter": counter, "_ds": ds}
     return out
 
 
@@ -183,16 +195,20 @@ def expected_positions(case, i_norm):
     return items
 
 
-def oracle_one(case, real, f, out):
-    """check one int form"""
+def oracle_one(case, real, f, out, root=None):
+    """check one int form; `root` (optional list): the wrapper sits on a view of the stack whose sample k is the stack's sample root[k]
+    (then loaders must have been asked for root[i] while 'index' is still i)"""
     spec = case["spec"]
     items = case["mode"].split(" ")
-    n = spec["len"]
+    n = spec["len"] if root is None else len(root)
     if not isinstance(f, int) or not (-n <= f < n):
         return None
     i = f + n if f < 0 else f
-    if out in ("KeyError", "IndexError"):
+    ri = i if root is None else root[i]
+    if isinstance(out, str):
         return f"mw[{f}] raised {out}"
+    if not isinstance(out, dict) or "malformed" in out:
+        return f"mw[{f}] is not a sample of the promised shape: {out}"
     body = out["o"] if case["return_ctx"] else out
     if len(items) == 1:
         if "b" not in body:
@@ -210,11 +226,11 @@ def oracle_one(case, real, f, out):
                 return f"mw[{f}] position {p} ('index') is {v}, expected {i}"
         elif it.startswith("ctx."):
             rec = rec_keys[it[4:]]
-            if not (isinstance(v, list) and v[0] == "t" and v[1] == rec and v[2] == i):
-                return f"mw[{f}] position {p} ('{it}') is {v}, expected what loader {rec} recorded for sample {i}"
+            if not (isinstance(v, list) and v[0] == "t" and v[1] == rec and v[2] == ri):
+                return f"mw[{f}] position {p} ('{it}') is {v}, expected what loader {rec} recorded for sample {ri}"
         else:
-            if not (isinstance(v, list) and v[0] == "t" and v[1] == it and v[2] == i):
-                return f"mw[{f}] position {p} ('{it}') is {v}, expected loader {it} of sample {i}"
+            if not (isinstance(v, list) and len(v) == 4 and v[0] == "t" and v[1] == it and v[2] == ri):
+                return f"mw[{f}] position {p} ('{it}') is {v}, expected loader {it} of sample {ri}"
     # jointly loaded items: one joint call (same call number) when every member occurs exactly once
     for grp in fused:
         if all(items.count(m) == 1 for m in grp):
@@ -224,9 +240,8 @@ def oracle_one(case, real, f, out):
                 return f"mw[{f}]: jointly loaded items {grp} come from different loader calls {sorted(calls)}"
     if case["return_ctx"]:
         for k, v in out["ctx"]:
-            if isinstance(v, list) and v[0] == "t" and v[2] != i:
+            if isinstance(v, list) and v and v[0] == "t" and v[2] != ri:
                 return f"mw[{f}]: returned ctx carries entry {k}={v} of another sample"
-        expect_keys = set()
     return None
 
 
@@ -257,7 +272,10 @@ def oracle(case, real):
     n_items = len(case["mode"].split(" "))
 
     def one(i):
-        return strip(canon_out(mw[i], n_items, case["return_ctx"]))
+        try:
+            return strip(safe_canon(mw[i], n_items, case["return_ctx"]))
+        except Exception as e:
+            return f"Error:{type(e).__name__}"
     for f, out in zip(case["forms"], real["outs"]):
         if isinstance(f, dict):
             exp = [one(i) for i in range(n)[slice(*f["s"])]]
@@ -272,9 +290,270 @@ def oracle(case, real):
                 return Failure("modewrapper:negative", f"mw[{f}] != mw[{f + n}] ({tag})", case, one(f + n), strip(out))
     if len(mw) != n:
         return Failure("modewrapper:len", f"len(mw)={len(mw)} != {n}", case, n, len(mw))
-    it = [strip(canon_out(o, n_items, case["return_ctx"])) for o in mw]
+    try:
+        it = [strip(safe_canon(o, n_items, case["return_ctx"])) for o in itertools.islice(mw, n + 1)]
+    except Exception as e:
+        it = f"Error:{type(e).__name__}"
     if it != [one(i) for i in range(n)]:
         return Failure("modewrapper:iter", f"list(iter(mw)) != [mw[i] for i in range(len)] ({tag})", case, None, None)
+    return run_history(case, real)
+
+
+# ----------------------------------------------------------------------------------------------
+# access histories ("all orders of preceding accesses"): a small program of public-protocol accesses (iter / next / [] / len /
+# list / zip / nested loops / `in`) over several mode-wrapped datasets that are alive at the same time:
+#   a = the case's ModeWrapper, already used by the forms and one full pass
+#   b = a second ModeWrapper (other mode / return_ctx) over the SAME stack object
+#   s = the case's mode over a KDSubset view of the same stack (composition with another wrapper of the package)
+#   c = copy.deepcopy / copy.copy of the used `a`, taken in the middle of the history
+# Every delivered sample is judged by the property statement alone (oracle_one at the position Python sequence semantics prescribes:
+# every iter(ds) walks 0..len-1 on its own, whatever else happens to the same or to other objects in between).
+# ----------------------------------------------------------------------------------------------
+HISTORY_KEY = "modewrapper:history"
+
+
+def _plain_forms(rng, n):
+    """index forms whose expected content is given by Python sequence semantics alone (in range; int, negative, slice, flat list)"""
+    out = []
+    if n > 0:
+        out.append(rng.randrange(-n, n))
+        out.append([rng.randrange(-n, n) for _ in range(rng.randint(0, 3))])
+    out.append({"s": [rng.choice([None, -3, -1, 0, 1, 2]), rng.choice([None, -3, -1, 0, 1, 2, 4]), rng.choice([None, 1, 2, -1, -2])]})
+    return rng.choice(out)
+
+
+def gen_history(rng, case):
+    spec = case["spec"]
+    n = spec["len"]
+    h = {"ops": []}
+    names = ["a"]
+    # a second configuration over the same stack (kept only if it is inside the property's domain)
+    if rng.random() < 0.6:
+        served = set(model_stack(spec)["onType"] if model_stack(spec)["fused"] else model_stack(spec)["reachable"])
+        alphabet = [it for it in ALPHABET if it not in LOADABLE or it in served or rng.random() < 0.1]
+        for _ in range(6):
+            mode2 = " ".join(rng.choice(alphabet) for _ in range(rng.randint(1, 3)))
+            if in_domain({"spec": spec, "mode": mode2}):
+                h["b"] = {"mode": mode2, "return_ctx": rng.random() < 0.5}
+                names.append("b")
+                break
+    # composition: the same mode over a subset view of the stack (the constructor rejects views of stacks with joint loaders)
+    if n > 0 and not model_stack(spec)["fused"] and rng.random() < 0.5:
+        h["s"] = [rng.randrange(n) for _ in range(rng.randint(0, 4))]
+        names.append("s")
+    ops = h["ops"]
+    iters = []  # wrapper name per iterator id
+
+    def length(w):
+        return len(h["s"]) if w == "s" else n
+
+    def open_iter(w):
+        iters.append(w)
+        ops.append(["iter", w])
+        return len(iters) - 1
+
+    def other_pass(w):
+        kind = rng.choice(["zip", "list", "nested", "in", "iter-next", "iter-drain", "get"])
+        if kind == "iter-next":
+            k = open_iter(w)
+            for _ in range(rng.randint(1, 2)):
+                ops.append(["next", k])
+        elif kind == "iter-drain":
+            ops.append(["drain", open_iter(w)])
+        elif kind == "get":
+            ops.append(["get", w, _plain_forms(rng, length(w))])
+        else:
+            ops.append([kind, w])
+
+    if rng.random() < 0.6:
+        # scenario: an iterator is opened and advanced, other accesses happen before it is exhausted, then it is continued
+        w = rng.choice(names)
+        k = open_iter(w)
+        for _ in range(rng.randint(0, max(0, length(w) - 1))):
+            ops.append(["next", k])
+        for _ in range(rng.randint(1, 2)):
+            other_pass(w if rng.random() < 0.8 else rng.choice(names))
+        if rng.random() < 0.5:
+            ops.append(["next", k])
+        if rng.random() < 0.7:
+            ops.append(["drain", k])
+            if rng.random() < 0.3:
+                ops.append(["next", k])
+    copied = False
+    for _ in range(rng.randint(2, 8)):
+        r = rng.random()
+        w = rng.choice(names)
+        if r < 0.18:
+            open_iter(w)
+        elif r < 0.55 and iters:
+            ops.append(["next", rng.randrange(len(iters))])
+        elif r < 0.62 and iters:
+            ops.append(["drain", rng.randrange(len(iters))])
+        elif r < 0.72:
+            ops.append(["get", w, _plain_forms(rng, length(w))])
+        elif r < 0.78:
+            ops.append(["len", w])
+        elif r < 0.84 and not copied:
+            copied = True
+            ops.append(["copy", rng.choice(["deep", "shallow"])])
+            names.append("c")
+        else:
+            ops.append([rng.choice(["zip", "list", "nested", "in"]), w])
+    return h
+
+
+class _Outside(Exception):
+    """the code under test raised where the property (inside its domain) promises a value"""
+
+
+def run_history(case, real):
+    """interpret case['history'] on the used wrapper of `real`; returns a Failure or None. Never lets an exception of the code under test escape."""
+    import copy
+    h = case.get("history")
+    if not h or real.get("ctor") != "ok" or not in_domain(case):
+        return None
+    from kappadata.wrappers.mode_wrapper import ModeWrapper
+    spec = case["spec"]
+    n = spec["len"]
+    tag = f"mode='{case['mode']}' fused={model_stack(spec)['fused']} return_ctx={case['return_ctx']} len={n}"
+    # name -> (object, judging case, root map)
+    ws = {"a": (real["_mw"], case, None)}
+    if "b" in h:
+        cb = {"spec": spec, "mode": h["b"]["mode"], "return_ctx": bool(h["b"]["return_ctx"])}
+        if in_domain(cb):
+            try:
+                ws["b"] = (ModeWrapper(real["_ds"], mode=cb["mode"], return_ctx=cb["return_ctx"]), cb, None)
+            except Exception:
+                pass  # rejected by the constructor: an outcome of the constructor, compared elsewhere
+    if "s" in h and not model_stack(spec)["fused"] and all(isinstance(i, int) and 0 <= i < n for i in h["s"]):
+        try:
+            from kappadata.datasets.kd_subset import KDSubset
+            ws["s"] = (ModeWrapper(KDSubset(real["_ds"], indices=list(h["s"])), mode=case["mode"], return_ctx=case["return_ctx"]), case, list(h["s"]))
+        except Exception:
+            pass
+
+    def describe(w):
+        obj, c, root = ws[w]
+        d = {"a": "the case's wrapper", "b": f"second wrapper mode='{c['mode']}' return_ctx={c['return_ctx']} over the same stack",
+             "s": f"the case's mode over KDSubset(stack, {root})", "c": "copy of the used wrapper"}[w]
+        return f"{w} ({d})"
+
+    def size(w):
+        return n if ws[w][2] is None else len(ws[w][2])
+
+    def judge(w, i, sample):
+        """None or a message: `sample` delivered by wrapper w must be sample i"""
+        obj, c, root = ws[w]
+        try:
+            out = canon_out(sample, len(c["mode"].split(" ")), c["return_ctx"])
+        except Exception:
+            return f"sample {i} has the wrong shape: {sample!r}"
+        if isinstance(out, list):
+            return f"sample {i} is a list: {sample!r}"
+        try:
+            return oracle_one(c, None, i, out, root)
+        except Exception as e:  # malformed values inside the sample
+            return f"sample {i} is malformed ({type(e).__name__}): {sample!r}"
+
+    def judge_seq(w, idxs, samples, what):
+        if len(samples) != len(idxs):
+            return f"{what} delivered {len(samples)} samples, expected {len(idxs)} (samples {list(idxs)})"
+        for i, smp in zip(idxs, samples):
+            msg = judge(w, i, smp)
+            if msg:
+                return f"{what}: expected sample {i}: {msg}"
+        return None
+
+    def guarded(fn):
+        try:
+            return fn()
+        except StopIteration:
+            raise
+        except Exception as e:
+            raise _Outside(f"raised {type(e).__name__}: {e}")
+
+    iters = []   # [iterator object or None, wrapper name, samples delivered so far]
+    trail = []
+    for no, op in enumerate(h["ops"]):
+        kind = op[0]
+        trail.append(op)
+        msg = None
+        try:
+            if kind == "iter":
+                w = op[1]
+                iters.append([guarded(lambda: iter(ws[w][0])) if w in ws else None, w, 0])
+            elif kind in ("next", "drain"):
+                k = op[1]
+                if not (isinstance(k, int) and 0 <= k < len(iters)) or iters[k][0] is None:
+                    continue
+                it, w, pos = iters[k]
+                m = size(w)
+                if kind == "next":
+                    try:
+                        smp = guarded(lambda: next(it))
+                    except StopIteration:
+                        if pos < m:
+                            msg = f"iterator #{k} over {describe(w)} ended after {pos} of {m} samples"
+                    else:
+                        if pos >= m:
+                            msg = f"iterator #{k} over {describe(w)} delivered a sample after its {m} samples: {smp!r}"
+                        else:
+                            iters[k][2] = pos + 1
+                            msg = judge(w, pos, smp)
+                            if msg:
+                                msg = f"iterator #{k} over {describe(w)}, {pos} samples delivered before, must deliver sample {pos}: {msg}"
+                else:
+                    rest = guarded(lambda: list(itertools.islice(it, m + 1)))
+                    iters[k][2] = max(pos, m)
+                    msg = judge_seq(w, list(range(min(pos, m), m)), rest, f"rest of iterator #{k} over {describe(w)} ({pos} samples delivered before)")
+            elif kind == "copy":
+                try:
+                    ws["c"] = ((copy.deepcopy if op[1] == "deep" else copy.copy)(ws["a"][0]), case, None)
+                except Exception:
+                    pass  # copying is not part of the property: no copy, nothing to judge
+            else:
+                w = op[1]
+                if w not in ws:
+                    continue
+                obj, m = ws[w][0], size(w)
+                if kind == "len":
+                    got = guarded(lambda: len(obj))
+                    if got != m:
+                        msg = f"len of {describe(w)} is {got}, expected {m}"
+                elif kind == "list":
+                    msg = judge_seq(w, list(range(m)), guarded(lambda: list(itertools.islice(obj, m + 1))), f"list({describe(w)})")
+                elif kind == "in":
+                    if guarded(lambda: object() in obj) is not False:
+                        msg = f"`object() in {describe(w)}` is not False"
+                elif kind == "zip":
+                    pairs = guarded(lambda: list(itertools.islice(zip(obj, obj), m + 1)))
+                    msg = judge_seq(w, list(range(m)), [p[0] for p in pairs], f"first components of zip(ds, ds), ds = {describe(w)},") \
+                        or judge_seq(w, list(range(m)), [p[1] for p in pairs], f"second components of zip(ds, ds), ds = {describe(w)},")
+                elif kind == "nested":
+                    pairs = guarded(lambda: [(x, y) for x in itertools.islice(obj, m + 1) for y in itertools.islice(obj, m + 1)])
+                    msg = judge_seq(w, [i for i in range(m) for _ in range(m)], [p[0] for p in pairs], f"outer samples of `for x in ds for y in ds`, ds = {describe(w)},") \
+                        or judge_seq(w, [j for _ in range(m) for j in range(m)], [p[1] for p in pairs], f"inner samples of `for x in ds for y in ds`, ds = {describe(w)},")
+                elif kind == "get":
+                    f = op[2]
+                    got = guarded(lambda: obj[to_py_index(f)])
+                    if isinstance(f, int):
+                        if -m <= f < m:
+                            msg = judge(w, f + m if f < 0 else f, got)
+                    else:
+                        if isinstance(f, dict):
+                            idxs = list(range(m)[slice(*f["s"])])
+                        elif isinstance(f, list) and all(isinstance(e, int) and -m <= e < m for e in f):
+                            idxs = [e + m if e < 0 else e for e in f]
+                        else:
+                            continue
+                        msg = f"ds[{f}] is not a list: {got!r}" if not isinstance(got, list) else judge_seq(w, idxs, got, f"ds[{f}]")
+                    if msg:
+                        msg = f"ds = {describe(w)}: {msg}"
+        except _Outside as e:
+            msg = f"{op} {e}"
+        if msg:
+            return Failure(HISTORY_KEY, f"after the case's forms and one full pass, history step {no} {op} (steps so far: {trail}): {msg} ({tag})",
+                           dict(case, history=dict(h, ops=list(trail))), None, None)
     return None
 
 
@@ -378,6 +657,10 @@ class C01(PropertyCheck):
         ex = exhaustive_modes(self.rng, 1200 if self.tier == "quick" else None)
         n = 1500 if self.tier == "quick" else 20000
         rnd = [gen_case(self.rng, maxlen=4 if i % 4 else 8) for i in range(n)]
+        # access histories come from their own stream (the stream of stacks/modes/forms stays what it was)
+        hrng = random.Random(self.seed * 7919 + 101)
+        for c in ex + rnd:
+            c["history"] = gen_history(hrng, c)
         return ex + rnd, len(ex)
 
     def correspond(self):
@@ -385,9 +668,12 @@ class C01(PropertyCheck):
         cases, nex = self.cases()
         res.rule = (f"{nex} cases of the exhaustive sweep (all modes of length<=3 over {ALPHABET} x {len(FUSED_CHOICES)} fused declarations"
                     f"{'; sampled' if self.tier == 'quick' else '; complete'}) + seeded random stacks/modes up to length 8 with int/negative/slice/list/nested index forms; "
+                    "every accepted in-domain case continues with an access history on the used wrapper (several live iterators over one object advanced in "
+                    "interleaved order, zip(ds, ds), nested loops, `in`, list, [] and len in between; a second wrapper with another mode over the same stack, "
+                    "the mode over a KDSubset view of the stack, a deep/shallow copy of the used wrapper), each delivered sample judged by the positional oracle; "
                     "distinct = (mode, fused declaration, return_ctx, ctor outcome)")
         res.exhaustive = self.tier == "thorough"
-        reqs = [{k: v for k, v in c.items() if k != "spec"} for c in cases]
+        reqs = [{k: v for k, v in c.items() if k not in ("spec", "history")} for c in cases]
         answers = self.driver.run(reqs)
         for case, model in zip(cases, answers):
             real = run_real(case)
@@ -400,6 +686,16 @@ class C01(PropertyCheck):
                 if len(res.disagreements) < 30:
                     res.disagreements.append(Disagreement({k: v for k, v in case.items() if k != "stack"}, model, strip_private(real)))
             f = oracle(case, real)
+            if real.get("ctor") == "ok" and in_domain(case):
+                hist = case.get("history") or {"ops": []}
+                res.bump("history=" + "".join(sorted(k for k in ("b", "s") if k in hist)) + ("c" if any(o[0] == "copy" for o in hist["ops"]) else ""))
+                live = {}
+                for o in hist["ops"]:
+                    if o[0] == "iter":
+                        live[len(live)] = o[1]
+                    elif o[0] in ("zip", "nested", "list", "in") and o[1] in live.values():
+                        res.bump("history:pass-while-iterator-open")
+                        break
             if f is not None and (len(res.failures) < 5 or not any(g.key == f.key for g in res.failures)):
                 res.failures.append(f)
             if len(res.samples) < 3 and real.get("ctor") == "ok" and case["stack"]["fused"] and len(case["mode"].split(" ")) > 1:
@@ -510,6 +806,7 @@ class C01(PropertyCheck):
         rng = random.Random(self.seed + 5)
         while not out and time.time() - t0 < budget_s:
             c = gen_case(rng, maxlen=6)
+            c["history"] = gen_history(rng, c)
             f = oracle(c, run_real(c))
             if f:
                 out.append(f)
